@@ -360,14 +360,16 @@ def run_check_header(prog, rep):
                     for c2 in itertools.product((False, True), repeat=len(und)):
                         full2 = dict(full)
                         full2.update(dict(zip(und, c2)))
+                        if full2.get(('canWrite',)) and full2.get(('canRead',)) is False:
+                            continue    # canWrite implies canRead (R-VER): not a state of the world
                         vals.add(spec(full2))
                 keys_seen.update(assign.keys())
                 akey = ','.join('%s=%s' % ('/'.join(str(x) for x in k[:2]) if k[0] != 'cmp' else 'cmp' + k[1], int(v)) for k, v in sorted(assign.items(), key=str))
                 key = 'checkHeader|mode=%s|throw=%s|%s' % (mode.split('::')[-1], throw_error, akey)
                 got = out[1] if out[0] == 'ret' else None
                 problems = []
-                if (other,) in assign:
-                    problems.append('%s consulted in mode %s (expected %s)' % (other, mode.split('::')[-1], gate))
+                if assign.get(('canWrite',)) and assign.get(('canRead',)) is False:
+                    continue            # infeasible abstract path (canWrite implies canRead)
                 if len(vals) != 1:
                     problems.append('verdict does not depend only on what the function inspected (missing query?)')
                 else:
